@@ -53,9 +53,12 @@ def fmt_dur(d):
     return s
 
 
+MODE = {"finite": False, "long": False}     # strata of gen_rule: no unbounded rules / a long finite series (> 1000 occurrences)
+
+
 def gen_rule(rng, s, isdt):
     """-> (rrule text or None, occurrence starts (None = unbounded generator params), period)"""
-    if rng.random() < 0.45:
+    if rng.random() < 0.45 and not MODE["long"]:
         return None, [s], None, False
     freq = rng.choice(["DAILY", "WEEKLY"])
     interval = rng.choice([1, 1, 2, 3])
@@ -64,9 +67,13 @@ def gen_rule(rng, s, isdt):
     if interval != 1 or rng.random() < 0.3:
         txt += ";INTERVAL=%d" % interval
     k = rng.random()
+    if MODE["finite"]:
+        k *= 0.8
+    if MODE["long"]:
+        k = 0.0
     unbounded = False
     if k < 0.45:
-        n = rng.randint(1, 5)
+        n = rng.randint(1, 5) if rng.random() < 0.97 and not MODE["long"] else rng.choice([1001, 1200, 1500])     # (now and then a long finite series)
         txt += ";COUNT=%d" % n
         occ = [s + i * period for i in range(n)]
     elif k < 0.8:
@@ -218,7 +225,7 @@ def rfc_match(o, fs, fe):
 
 def boundaries(o):
     pts = set()
-    for s in o["occ"][:8]:
+    for s in o["occ"][:8] + (o["occ"][-2:] if len(o["occ"]) > 8 and not o["unbounded"] else []):
         ends = [s, s + 1, s + DAY]
         if o["kind"] == "VEVENT":
             ends.append(s + o.get("dur", 0))
@@ -288,7 +295,11 @@ def function_level(ctx):
     rng = ctx.rng("fn")
     n = ctx.n(500, 30000)
     for i in range(n):
-        o = gen_object(rng, i)
+        MODE["long"] = i % 100 == 7
+        try:
+            o = gen_object(rng, i)
+        finally:
+            MODE["long"] = False
         try:
             v = vobject.readOne(o["text"])
             ritem.check_and_sanitize_items([v], tag="VCALENDAR")
@@ -347,8 +358,15 @@ def end_to_end(ctx):
             login = "u:p"
             assert app.request("MKCALENDAR", "/u/cal/", login=login)[0] == 201
             objs = []
+            # every third collection holds finite objects only (so that open-ended ranges are asked end to end), among them
+            # series of more than 1000 occurrences
+            finite_round = rnd % 3 == 1
             for i in range(25):
-                o = gen_object(rng, rnd * 100 + i)
+                MODE["finite"], MODE["long"] = finite_round, finite_round and i < 3
+                try:
+                    o = gen_object(rng, rnd * 100 + i)
+                finally:
+                    MODE["finite"] = MODE["long"] = False
                 st, _, _ = app.request("PUT", "/u/cal/%s.ics" % o["uid"], o["text"], login=login)
                 if st != 201:
                     ctx.violation("generated object refused with %d" % st, {"text": o["text"]})
@@ -360,12 +378,14 @@ def end_to_end(ctx):
             for q in range(ctx.n(12, 40)):
                 o = rng.choice(objs)
                 queries.append((o,) + gen_ranges(rng, o, 1)[0])
-            for o in rng.sample(objs, min(len(objs), ctx.n(8, 20))):
+            for o in rng.sample(objs, min(len(objs), ctx.n(8, 20))) + [x for x in objs if len(x["occ"]) > 1000 and not x["unbounded"]]:
                 e0 = o["occ"][0]
                 pts = boundaries(o)
                 edge = [(e0 - 7200, e0), (e0 - 1, e0), (e0 - 7200, e0 + 1), (None, e0), (e0, e0 + 1)]
                 edge += [(p, p + 3600) for p in pts[-4:]] if not o["unbounded"] else []
-                for fs, fe in rng.sample(edge, 4):
+                if finite_round:
+                    edge += [(p, None) for p in pts[-4:]] + [(pts[-1] + 7200, None), (e0 + 1, None)]
+                for fs, fe in (rng.sample(edge, 4) if len(o["occ"]) <= 1000 else edge[-6:]):
                     queries.append((o, fs, fe))
             for q, (o, fs, fe) in enumerate(queries):
                 kind = o["kind"]
